@@ -21,6 +21,15 @@ var traceN int
 // line is localised.
 func emit(tag string, s string) {
 	traceN++
+	if len(s) > 4000 {
+		// very long values (strings doubled in loops) are folded: the reference run time does
+		// not retry a short write of a huge line to a pipe, so the line would arrive cut
+		h := uint64(14695981039346656037)
+		for i := 0; i < len(s); i++ {
+			h = (h ^ uint64(s[i])) * 1099511628211
+		}
+		s = s[:2000] + "...#" + itoa(len(s)) + "#" + hex64(h)
+	}
 	println("T " + itoa(traceN) + " " + tag + " " + s)
 }
 
